@@ -390,4 +390,115 @@ func init() {
 				Variants: c04Variants(), MaxSteps: 200_000},
 		},
 	})
+
+	// ---------------------------------------------------------------- C03 (translation validation)
+	register(&checkSpec{
+		ID:    "C03",
+		Level: "translation_validation",
+		Rule:  "programs = the 11 templates of harness/tv/c03/errwrap.xgo (expr!, expr?, expr?:d as assignment, multi-value assignment, statement, argument, nested; enclosing functions with 1..3 results), compiled by the compiler of the current tree; inputs = callee values, default value and error/non-error flags as SMT variables; the emitted Go is executed symbolically (with the real github.com/qiniu/x/errors frame wrapping) and checked against the documented behaviour, including the instrumented evaluation trace",
+		Assumptions: []string{
+			"translation validation of the listed templates, not of every program",
+			"'panics with that error (wrapped with its source frame)' is checked as errors.Is(panic value, callee error); errors.Is is the engine's model (identity, Is method, Unwrap chain)",
+		},
+		Prepare: func(tier string) error { _, err := prepareTV("C03"); return err },
+		Extra:   func(tier string, ev map[string]any) []Violation { ev["programs"] = 11; return nil },
+		Harnesses: []harnessSpec{
+			{Name: "VxC03", ExtDir: tvDir("C03"), Quick: map[string]int{}, Variants: func() []map[string]int {
+				var v []map[string]int
+				for fn := 0; fn <= 10; fn++ {
+					v = append(v, map[string]int{"FN": fn})
+				}
+				return v
+			}(), MaxSteps: 500_000},
+		},
+	})
+
+	// ---------------------------------------------------------------- C05 (translation validation)
+	register(&checkSpec{
+		ID:    "C05",
+		Level: "translation_validation",
+		Rule:  "programs = the 10 templates of harness/tv/c05/interp.xgo (text, $$, ${int}, ${string}, ${error}, ${int64}, ${arithmetic}, ${call} in several orders), compiled by the compiler of the current tree; inputs = integers in [-R,R], strings of <= L symbolic bytes, an error value, as SMT variables; the emitted Go (real strconv and qiniu/x/stringutil.Concat) is executed symbolically and compared with explicit concatenation and with the evaluation trace",
+		Assumptions: []string{
+			"translation validation of the listed templates, not of every literal; floats are left out (no floating point in the engine); bool and unsigned operands are rejected by the compiler and not part of the templates",
+			"bound: |ints| <= R (decimal rendering forks on the digit count), strings of <= L bytes",
+		},
+		Prepare: func(tier string) error { _, err := prepareTV("C05"); return err },
+		Extra:   func(tier string, ev map[string]any) []Violation { ev["programs"] = 10; return nil },
+		Harnesses: []harnessSpec{
+			{Name: "VxC05", ExtDir: tvDir("C05"), Quick: map[string]int{"R": 1200, "L": 2}, Thorough: map[string]int{"R": 100000, "L": 3}, Variants: func() []map[string]int {
+				var v []map[string]int
+				for fn := 0; fn <= 9; fn++ {
+					m := map[string]int{"FN": fn}
+					if fn == 6 {
+						m["R"] = 40 // two independent integers
+					}
+					if fn == 9 {
+						m["R"] = 60 // 64-bit products through FormatInt's division kernels
+					}
+					v = append(v, m)
+				}
+				return v
+			}(), MaxSteps: 500_000},
+		},
+	})
+
+	// ---------------------------------------------------------------- C02 (translation validation)
+	register(&checkSpec{
+		ID:    "C02",
+		Level: "translation_validation",
+		Rule:  "programs = the 17 templates of harness/tv/c02/coll.xgo (list and map literals, xs <- v / v, w / ys..., for-in with index and with filter, list/map comprehensions with filter and with two for-phrases, existence and selection comprehensions with 1 and 2 results, command-style call, trailing lambda), compiled by the compiler of the current tree; inputs = slice contents (length <= L, elements in [-9,9]) and scalars as SMT variables; results and the instrumented evaluation trace of the emitted Go are compared with the explicit Go expansion",
+		Assumptions: []string{
+			"translation validation of the listed templates, not of every program; element type int only (maps compared by lookup, not by iteration order)",
+			"bound: slices of at most L elements",
+		},
+		Prepare: func(tier string) error { _, err := prepareTV("C02"); return err },
+		Extra:   func(tier string, ev map[string]any) []Violation { ev["programs"] = 17; return nil },
+		Harnesses: []harnessSpec{
+			{Name: "VxC02", ExtDir: tvDir("C02"), Quick: map[string]int{"L": 2}, Thorough: map[string]int{"L": 3}, Variants: func() []map[string]int {
+				var v []map[string]int
+				for fn := 0; fn <= 16; fn++ {
+					v = append(v, map[string]int{"FN": fn})
+				}
+				return v
+			}(), MaxSteps: 500_000},
+		},
+	})
+
+	// ---------------------------------------------------------------- C01 (translation validation)
+	register(&checkSpec{
+		ID:    "C01",
+		Level: "translation_validation",
+		Rule:  "programs = the 16 Go functions of harness/tv/c01/prog.gotmpl (integer/bit arithmetic, strings and slicing, slices with aliasing/append/copy, maps, value and pointer methods, closures capturing and mutating loop variables, defer order with arguments, recover from index/division panics, switch with fallthrough, labelled break/continue, goto, tuple assignment order, shadowing, variadics, named results modified by defer, interfaces and type switches); the same text is compiled by the XGo compiler of the current tree and taken as plain Go; inputs = integer/string arguments as SMT variables; results, panics and traces of the two versions are compared by symbolic execution",
+		Assumptions: []string{
+			"translation validation of the listed Go functions, not of every Go program; the reference is the same source executed by the engine as Go (not a binary built by the Go toolchain); println/stdout and exit status are not exercised",
+			"bound: |ints| <= 40, loop bounds <= 5, strings <= 2 bytes",
+		},
+		Prepare: func(tier string) error { _, err := prepareTV("C01"); return err },
+		Extra:   func(tier string, ev map[string]any) []Violation { ev["programs"] = 16; return nil },
+		Harnesses: []harnessSpec{
+			{Name: "VxC01", ExtDir: tvDir("C01"), Quick: map[string]int{}, Variants: func() []map[string]int {
+				var v []map[string]int
+				for fn := 0; fn <= 15; fn++ {
+					v = append(v, map[string]int{"FN": fn})
+				}
+				return v
+			}(), MaxSteps: 500_000},
+		},
+	})
+
+	// ---------------------------------------------------------------- C11 (translation validation)
+	register(&checkSpec{
+		ID:    "C11",
+		Level: "translation_validation",
+		Rule:  "programs = the class file harness/tv/c11/cls/Counter.gox (var block with int, string, slice and map fields; six methods with parameters, results, field reads/writes, this.Method and bare method calls) plus three driver functions in main.xgo, compiled as one package by the compiler of the current tree; inputs = method arguments and initial field values as SMT variables; compared with the explicit struct + pointer-receiver methods; the exact field list and method set are checked statically when the generated package is type-checked",
+		Assumptions: []string{
+			"translation validation of this class, not of every class; field types int, string, []int, map[int]bool",
+			"'exactly those fields and methods': unkeyed composite literal and interface satisfaction in the generated package (go/types at load time), not a reflective enumeration: extra methods would go unnoticed",
+		},
+		Prepare: func(tier string) error { _, err := prepareTV("C11"); return err },
+		Extra:   func(tier string, ev map[string]any) []Violation { ev["programs"] = 4; return nil },
+		Harnesses: []harnessSpec{
+			{Name: "VxC11", ExtDir: tvDir("C11"), Quick: map[string]int{}, Variants: []map[string]int{{"FN": 0}, {"FN": 1}, {"FN": 2}, {"FN": 3}}, MaxSteps: 500_000},
+		},
+	})
 }
